@@ -21,8 +21,11 @@
       record: notify with the UNDO record, merge the still-unspent outputs of the stored record, store).
   Go maps are association lists (order is not observable: Go map iteration order is random, and the
   harness sorts). A Go map used as a set (`unspMap`) is a duplicate-free list.
-  Not modelled: the abort path of LoadBalancesFromUtxo (FetchingBalanceTick), the save/load of the index to
-  disk (disk.go), the OP_RETURN "message" decoration of GetAllUnspent, UTXO_PURGE_UNSPENDABLE (false).
+  The byte-level load (NewUtxoRecStatic with its static buffers, plain and compressed records, the abort path of
+  LoadBalancesFromUtxo via FetchingBalanceTick) is in Model/BalancesLoad.lean; `.enable` below is its record-level form
+  (Props.C17.load_bytes_eq_enable).
+  Not modelled: the save/load of the index to disk (disk.go), the OP_RETURN "message" decoration of GetAllUnspent,
+  UTXO_PURGE_UNSPENDABLE (false).
   Index panics of the Go code (mask shorter than the output list) are outside the admissible histories
   and are total here (`getD`).
 -/
